@@ -14,7 +14,7 @@ MODULE = "github.com/tochemey/goakt/v4"
 GOENV = dict(os.environ, GOFLAGS="-mod=mod", GOPROXY="off", GOSUMDB="off", GOTOOLCHAIN="local",
              PATH="/opt/veriftools/go1.26.8/bin:" + os.environ.get("PATH", ""))
 CACHE = os.path.join(VERIF, ".cache")
-DEFAULT_DESCEND = [MODULE, "go.uber.org/atomic", "slices", "maps", "sort", "container/heap", "container/list", "cmp",
+DEFAULT_DESCEND = [MODULE, "internal/strconv", "go.uber.org/atomic", "slices", "maps", "sort", "container/heap", "container/list", "cmp",
                    "encoding/binary", "math/bits", "golang.org/x/sync/singleflight", "unicode/utf8", "bytes", "strings", "strconv", "errors"]
 
 
@@ -92,9 +92,11 @@ def model_value(m, term, kind):
     if kind == "bool":
         v = m.eval(term, model_completion=True)
         return bool(z3.is_true(v))
+    if kind == "case":
+        return term
     if kind in ("string", "bytes"):
         chars, ln = term
-        n = m.eval(ln, model_completion=True).as_signed_long()
+        n = ln if isinstance(ln, int) else m.eval(ln, model_completion=True).as_signed_long()
         bs = bytes(m.eval(c, model_completion=True).as_long() for c in chars[:max(0, n)])
         import base64
         return base64.b64encode(bs).decode()
@@ -108,7 +110,7 @@ def run_entry(args):
     """executed in a worker process. returns a result dict"""
     irpath, entry, opts, timeout_ms = args
     t0 = time.time()
-    res = {"entry": entry, "obligations": [], "covers": {}, "violations": [], "errors": [], "undecided": []}
+    res = {"entry": entry, "case": opts.get("case"), "obligations": [], "covers": {}, "violations": [], "errors": [], "undecided": []}
     try:
         prog = Program(irpath)
         ex = Executor(prog, opts)
@@ -122,7 +124,6 @@ def run_entry(args):
         res["feas_queries"] = ex.nqueries
         # discharge
         s = z3.Solver()
-        s.set("timeout", timeout_ms)
         nadded = 0
         ts = time.time()
         nq = 0
@@ -149,7 +150,6 @@ def run_entry(args):
                 batch_ok.update(idxs)
         # NB: the incremental solver only ever grows its assumption prefix; obligations are visited in creation order
         s2 = z3.Solver()
-        s2.set("timeout", timeout_ms)
         nadded2 = 0
         for i, ob in enumerate(ex.obligations):
             while nadded2 < ob.nassume:
@@ -203,7 +203,6 @@ def run_entry(args):
             res["obligations"].append(rec)
         # covers (with all assumptions up to their point)
         sc = z3.Solver()
-        sc.set("timeout", timeout_ms)
         for a in ex.assumes:
             sc.add(a)
         for name, g in ex.covers.items():
@@ -287,15 +286,39 @@ def run_check(check, tier="quick", seed=0, replay_only=None):
             print("  vdump %.1fs: %s" % (dump_s, dump_msg))
         tmo = check.get("timeout_ms", {}).get(tier, 120000 if tier == "quick" else 900000)
         jobs = []
+        expanded = []
+        import itertools
         for e in entries:
             opts = dict(check.get("opts", {}))
             opts.update(e.get("opts", {}))
             opts.update(e.get("opts_" + tier, {}))
-            jobs.append((irpath, e["fn"], opts, tmo))
+            cases = e.get("cases_" + tier, e.get("cases"))
+            if cases:
+                names = sorted(cases.keys())
+                for combo in itertools.product(*[cases[n] for n in names]):
+                    o = dict(opts)
+                    o["case"] = dict(zip(names, combo))
+                    jobs.append((irpath, e["fn"], o, tmo))
+                    expanded.append(e)
+            else:
+                jobs.append((irpath, e["fn"], opts, tmo))
+                expanded.append(e)
+        entries = expanded
         nproc = min(len(jobs), int(os.environ.get("VERIF_JOBS", "14")))
         if nproc > 1:
-            with mp.Pool(nproc) as pool:
-                results = pool.map(run_entry, jobs)
+            with mp.Pool(nproc, maxtasksperchild=1) as pool:
+                results = []
+                asyncs = [pool.apply_async(run_entry, (j,)) for j in jobs]
+                deadline = time.time() + tmo / 1000.0
+                for i, a in enumerate(asyncs):
+                    try:
+                        r = a.get(timeout=max(1.0, deadline - time.time()))
+                    except mp.TimeoutError:
+                        r = {"entry": jobs[i][1], "case": jobs[i][2].get("case"), "obligations": [], "covers": {}, "violations": [], "undecided": [],
+                             "errors": ["timeout: job not finished within the tier budget (%ds)" % (tmo // 1000)], "wall_s": tmo / 1000.0}
+                    results.append(r)
+                    if os.environ.get("VERIF_VERBOSE"):
+                        print("   job %d/%d %s %s: %.1fs %s" % (i + 1, len(jobs), r["entry"].rsplit(".", 1)[1], r.get("case") or "", r["wall_s"], r["errors"][:1]), flush=True)
         else:
             results = [run_entry(j) for j in jobs]
         known = load_known_findings()
@@ -312,6 +335,7 @@ def run_check(check, tier="quick", seed=0, replay_only=None):
         queries = 0
         kf_seen = set()
         replay_paths = []
+        seen_check_v = set()
         for e, r in zip(entries, results):
             if os.environ.get("VERIF_VERBOSE"):
                 print("  entry %s: exec %.1fs solver %.1fs wall %.1fs, %d obligations, %d instrs" % (r["entry"].rsplit(".", 1)[1], r.get("exec_s", 0), r.get("solver_s", 0), r["wall_s"], len(r["obligations"]), r.get("ninstr", 0)))
@@ -352,6 +376,9 @@ def run_check(check, tier="quick", seed=0, replay_only=None):
                 if (v["name"], v["kind"]) in seen_v and v["kind"] != "unwind":
                     continue  # one counterexample per assertion / panic message and entry is replayed and reported
                 seen_v.add((v["name"], v["kind"]))
+                if (r["entry"], v["name"], v["kind"]) in seen_check_v and v["kind"] != "unwind":
+                    continue  # same assertion already reported for another case of the split
+                seen_check_v.add((r["entry"], v["name"], v["kind"]))
                 # known finding?
                 matched = None
                 for f in kf:
@@ -364,6 +391,8 @@ def run_check(check, tier="quick", seed=0, replay_only=None):
                     infra.append("%s: %s" % (r["entry"], v["name"]))
                     continue
                 ename = r["entry"].rsplit(".", 1)[1]
+                if r.get("case"):
+                    ename += "__" + "_".join("%s%s" % (k, v) for k, v in sorted(r["case"].items()))
                 rdir = os.path.join(VERIF, "replay", pid)
                 os.makedirs(rdir, exist_ok=True)
                 rpath = os.path.join(rdir, "%s__%s_%s.json" % (ename, re.sub(r"[^A-Za-z0-9]+", "_", v["name"])[:60], re.sub(r"[^0-9]", "", (v.get("pos") or "").rsplit(":", 1)[-1])))
